@@ -32,7 +32,10 @@ def _item(I, cls, tag):
         B.assume_no_nan(I, d)
         return I.mod("tdfEMG").EMGTrack(I.label(f"{tag}.lab", 1), d)
     if cls == "fpcal":
-        return I.mod("tdfForcePlatformsCalibration").ForcePlatformInfo(I.label(f"{tag}.lab", 1), I.farray(f"{tag}.size", (2,)), I.farray(f"{tag}.pos", (4, 3)))
+        size, pos = I.farray(f"{tag}.size", (2,)), I.farray(f"{tag}.pos", (4, 3))
+        B.assume_no_nan(I, size)
+        B.assume_no_nan(I, pos)
+        return I.mod("tdfForcePlatformsCalibration").ForcePlatformInfo(I.label(f"{tag}.lab", 1), size, pos)
     ap, fo, to = I.farray(f"{tag}.ap", (1, 2)), I.farray(f"{tag}.f", (1, 3)), I.farray(f"{tag}.t", (1,))
     B.assume_frames(I, 1, [ap, fo, to.reshape(1, 1)])
     return I.mod("tdfForcePlatformsData").ForcePlatformData(ap, fo, to)
@@ -59,7 +62,18 @@ def _label_of(cls, it):
 
 
 def _distinct_labels(I, items, cls):
+    # only EMG signals are addressed by label; calibration platforms may be value-equal
+    # twins (same label, size and vertices on different channels)
     if cls == "fpdata":
+        return
+    if cls == "fpcal":
+        # two platforms either differ in their label or are bit-identical twins: keeps numpy's
+        # tolerance comparison (abstracted in the model) decided for every pair
+        for i in range(len(items)):
+            for j in range(i + 1, len(items)):
+                a, b = items[i], items[j]
+                twin = I.and_(B.tob(I, a.size, "<f4") == B.tob(I, b.size, "<f4"), B.tob(I, a.position, "<f4") == B.tob(I, b.position, "<f4"))
+                I.assume(I.or_(I.not_(a.label == b.label), twin))
         return
     labs = [it.label for it in items]
     for i in range(len(labs)):
@@ -218,13 +232,20 @@ def run_ops(I, cls, blk, model, ops):
             except Exception as e:  # noqa: BLE001
                 exc = e
             I.observe(f"{tag}.exc", type(exc).__name__ if exc else None)
-            if j == "foreign":
+            # removal "by item" has list semantics: the first member that is the object or
+            # compares equal to it (a bit-identical twin) goes, together with its channel
+            hit = None
+            for q, (_, mit) in enumerate(model):
+                if mit is it or (cls == "fpcal" and I.truth(mit.label == it.label)):
+                    hit = q
+                    break
+            if hit is None:
                 I.prove(f"C15.{cls}.foreign_item_refused", exc is not None)
             else:
                 I.goal("removed")
                 I.prove(f"C15.{cls}.remove_by_item_succeeds", exc is None)
                 if exc is None:
-                    del model[j]
+                    del model[hit]
         elif kind == "add_many":
             k, explicit = op[1], op[2]
             its = [_item(I, cls, f"{tag}.{q}") for q in range(k)]
